@@ -129,6 +129,24 @@ def build_unit(name):
             inc = open(os.path.join(OVERLAY_DIR, arg)).read().split("\n")
             raw[i:i + 1] = inc
             continue
+        if d == "auto_consts":
+            # constants declared in the file (module level) or in its inherent impl block (one indentation level): extracted verbatim so that a
+            # function that starts using a new constant is still verified as it stands (at the pinned commit reader.rs declares none)
+            rel, wrap_txt = [x.strip() for x in arg.split("::", 1)]
+            ftxt = open(os.path.join(vlib.REPO, rel)).read().split("#[cfg(test)]")[0]
+            mods = re.findall(r"^(?:pub(?:\([^)]*\))?\s+)?(const\s+\w+\s*:[^;]+;)", ftxt, re.M)
+            impls = re.findall(r"^    (?:pub(?:\([^)]*\))?\s+)?(const\s+\w+\s*:[^;]+;)", ftxt, re.M)
+            for c in mods:
+                u.lines.append((c, ("repo", rel, 0)))
+            if impls:
+                u.lines.append((wrap_txt + " {", ("gen", "wrap", 0)))
+                for c in impls:
+                    u.lines.append(("    " + c, ("repo", rel, 0)))
+                u.lines.append(("}", ("gen", "wrap", 0)))
+            if mods or impls:
+                u.notes.append("%s: constants extracted verbatim: %s" % (rel, ", ".join(re.findall(r"const\s+(\w+)", " ".join(mods + impls)))))
+            i += 1
+            continue
         if d == "verus_refine":
             parts = arg.split()
             u.refine.append((parts[0], parts[1:]))
